@@ -55,6 +55,16 @@ def gen_case(seed, i, tier, with_faults=False):
                 m = r.weighted([('own_write', 3), ('commit', 3), ('flush', 1), ('sel', 1), ('get', 1)])
                 mid.append([m, hot if r.chance(0.8) else r.below(3), r.below(10)])
             steps = first + mid + [list(st) for st in first]
+        elif r.chance(0.2):
+            # one-to-one form: both ends of the hot account's card are read, another card is loaded later (which
+            # tells the account it names - a writer may have re-linked it meanwhile), both ends are read again
+            other = r.below(4)
+            steps = [['card', hot, 0], ['card_acct', 0, hot]]
+            if r.chance(0.5):
+                steps.append([r.choice(['commit', 'get', 'sel']), hot, 0])
+            steps += [['card_acct', 0, other], ['card', hot, 0], ['card_acct', 0, hot]]
+            if r.chance(0.5):
+                steps.append(['card_acct', 0, other])
         elif r.chance(0.3):
             # write-first form: the session assigns an attribute it has not read, may read it back, commits
             # (the session goes on), lets the row be fetched again in some way, and reads the attribute
@@ -80,6 +90,9 @@ def gen_case(seed, i, tier, with_faults=False):
                 b = r.below(10)
                 if op == 'upd' and r.chance(0.6):
                     b = hot_attr         # ... which the writers change
+                if op == 'relink' and r.chance(0.7):
+                    steps.append([op, hot, b])      # a card (any) goes to the hot account
+                    continue
                 steps.append([op, arg1(item), b])
             prog.append({'role': 'writer', 'steps': steps})
         threads['T%d' % t] = prog
